@@ -219,6 +219,7 @@ func Load(repoDir, tags, goos string) (*Prog, error) {
 	for _, pkg := range p.PkgList {
 		normalizeIterCalls(pkg)
 		normalizeVarDecls(pkg)
+		normalizeGoCalls(pkg)
 		unrollTableLoops(pkg)
 	}
 	registerErrPredicates(p)
